@@ -270,6 +270,46 @@ def overwrite (g : Grid) (h : Handle) : Grid × R Unit :=
 def createMutableFile (g : Grid) : Grid × Handle :=
   (g ++ [⟨.mfile, [], 0⟩], ⟨g.length, true⟩)
 
+/-! ## the gateway's node cache (`NodeMaker.create_from_cap`) -/
+
+/-- memo key: `b"I" + bigcap` / `b"M" + bigcap` -/
+structure MemoKey where
+  deepImm : Bool
+  cap : Cap
+  deriving DecidableEq, Repr
+
+/-- `NodeMaker._node_cache` (a `WeakValueDictionary`: entries may vanish at any time, see `evict`) -/
+abbrev NodeCache := List (MemoKey × Handle)
+
+def cacheLookup (c : NodeCache) (k : MemoKey) : Option Handle :=
+  match c with
+  | [] => none
+  | (k', h) :: rest => if k' == k then some h else cacheLookup rest k
+
+/-- `create_from_cap(writecap, readcap)` with `bigcap = writecap or readcap`: a cached node is returned as
+it is; otherwise the node is built from the cap string alone and cached only if it is mutable.
+(`deep_immutable` only enters the key here; unknown / verify caps are never cached.) -/
+def createFromCap (g : Grid) (c : NodeCache) (deepImm : Bool) (bigcap : Cap) : Handle × NodeCache :=
+  match cacheLookup c ⟨deepImm, bigcap⟩ with
+  | some h => (h, c)
+  | none =>
+    let h := capHandle g bigcap
+    (h, if isMutableAt g bigcap.addr && !(bigcap.auth == .verify) then (⟨deepImm, bigcap⟩, h) :: c else c)
+
+/-- garbage collection of the weak dictionary: any subset of the entries survives -/
+def evict (c : NodeCache) (keep : MemoKey → Bool) : NodeCache := c.filter (fun e => keep e.1)
+
+/-- a history of the cache: lookups (holding the node) and collections -/
+inductive CacheOp
+  | create (deepImm : Bool) (cap : Cap)
+  | collect (keep : MemoKey → Bool)
+
+/-- run a history; returns the nodes handed out, in order -/
+def runCache (g : Grid) : NodeCache → List CacheOp → List Handle
+  | _, [] => []
+  | c, .create d cap :: rest => (createFromCap g c d cap).1 :: runCache g (createFromCap g c d cap).2 rest
+  | c, .collect keep :: rest => runCache g (evict c keep) rest
+
 /-! ## web layer: requests -/
 
 inductive Meth | put | post | delete
